@@ -45,6 +45,13 @@ pub fn server_cfg(c: &Case) -> TlsServerCfg {
     }
 }
 
+/// like server_cfg but the identity index is used as is (identities >= 4 are the unusual certificates)
+pub fn server_cfg_raw_identity(c: &Case) -> TlsServerCfg {
+    let mut s = server_cfg(c);
+    s.identity = c.identity;
+    s
+}
+
 pub fn run(c: &Case) -> Outcome {
     let mut out = Outcome::new();
     let scfg = server_cfg(c);
